@@ -217,6 +217,13 @@ def run(tier, seed):
             v.failures([f for f in fails if f['clause'] == 'CountsOK'])
             v.count('fixparams_cases', cnt.get('cases', 0))
         cov['fixparams_transitions_replayed'] = v.counters.get('fixparams_cases', 0)
+        # names of the covariate parameters after set_population_parameters (any selection, 1-2 covariates): the shared run
+        # of module CovSel (see C07), judged on its names clause
+        from . import check_c07
+        cs = cached('covsel', tier, seed, lambda: check_c07._compute(tier, seed))
+        for fails, cnt in cs['results']:
+            v.failures([f for f in fails if f['clause'] in ('Names', 'NamesBijective')])
+            v.count('covsel_cases', cnt.get('cases', 0))
         runs, uniq, res = reconfig(tier, seed)
         runs, uniq = runs + runs2 + fx['runs'], uniq + uniq2
         for fails, cnt in res:
